@@ -42,7 +42,7 @@ class FFTWrapper:
         else:
             self._inshape = tuple(kshape)
             self._outshape = tuple(rshape)
-        dims = np.asarray(dims, dtype=np.int32)
+        dims = np.ascontiguousarray(dims, dtype=np.int32)
         self._ptr = ctypes.c_void_p(
             libfft.allocate_fftnd_plan(
                 ctypes.c_int(len(dims)),
